@@ -377,7 +377,9 @@ looping through all list types: {ty:?} {base:?}"
                 }
             }
             FieldValue::Enum(_) => {
-                unimplemented!("enum values are not currently supported: {self} {value:?}")
+                // Enum types are not currently supported in schemas,
+                // so an enum value is not a valid value for any type.
+                false
             }
         }
     }
